@@ -179,6 +179,9 @@ pub fn run_case(case: &Json) -> Result<(Option<(String, String)>, u64), String> 
             b.outcome.tag(),
             describe_diff(&b.tree, &a.tree)
         );
+        // the outputs themselves may depend on hidden process state (that is the violation); the
+        // replayable identity of the finding is its class and message
+        let mut f = Fnv::new();
         f.str(&msg);
         return Ok((Some(("nondeterministic-output".into(), msg)), f.finish()));
     }
